@@ -111,7 +111,7 @@ def acks_in(vc, sent):
 
 @contract("HSTRPDatagramProtocol.datagram_received", "okdmr.dmrlib.protocols.hytera.hstrp_datagram_protocol:HSTRPDatagramProtocol.datagram_received", ["C17"],
           stubs=["HSTRP.from_bytes"])
-def one_datagram(vc, handler, kind, payload, radio, opcode, exc="AssertionError", own="absent", others="Online"):
+def one_datagram(vc, handler, kind, payload, radio, opcode, exc="AssertionError", own="absent", others="Online", prelude=None):
     """own / others: what the registry holds for the acting radio / the other radio before the datagram (absent, Online,
     Offline) - any registry the invariant allows, so that the per-datagram clauses carry over any history"""
     cls = RRSDatagramProtocol if handler == "rrs" else HSTRPDatagramProtocol
@@ -133,6 +133,18 @@ def one_datagram(vc, handler, kind, payload, radio, opcode, exc="AssertionError"
             pre_reg[str(RadioIP(radio_id=RADIOS[radio]))] = RRSRadioState[own]
         h.registry = dict(pre_reg)
     addr = ("192.168.1.7", 30001)
+    if prelude:
+        # a history of length one before the datagram under test: a data message (registration of the OTHER radio) with its
+        # own symbolic sequence number - whatever the handler remembers about earlier messages, in attributes this contract
+        # knows nothing of, is then part of the pre-state (the two sequence numbers may be equal or differ)
+        h.sn = 7  # (the own sequence number is literal here: its arithmetic is the business of the shapes without prelude)
+        pre_pdu = HSTRP(pkt_type=HSTRPPacketType(), sn=vc.uint(16, "psn"), options=HSTRPOptions(),
+                        payload=RadioRegistrationService(opcode=RRSTypes.RadioRegistrationRequest if prelude == "registration" else RRSTypes.RadioGoingOffline, radio_ip=RadioIP(radio_id=RADIOS[other])))
+        GHOST.update(kind="hstrp", pdu=pre_pdu)
+        h.datagram_received(pre_pdu.as_bytes() if vc.mode == "native" else b"prelude", addr)
+        del tr.sent[:]
+        connected, sn0 = h.hstrp_connected, h.sn
+        pre_reg = dict(getattr(h, "registry", {}))
     data = b"datagram"
     if kind == "hstrp":
         pdu, f = make_pdu(vc, payload, radio, opcode)
@@ -231,6 +243,10 @@ def _shapes(tier):
         for op in ("RadioRegistrationRequest", "RadioGoingOffline", "RegistrationStatusCheckRequest", "RadioRegistrationAnswer", "RegistrationStatusCheckAnswer"):
             for r in ("A", "B"):
                 yield dict(handler=handler, kind="hstrp", payload="rrs", radio=r, opcode=op)
+                if handler == "rrs" and r == "A" and op in ("RadioRegistrationRequest", "RadioGoingOffline"):
+                    for pl in ("registration", "offline"):
+                        if tier != "quick" or pl == "registration" or op == "RadioGoingOffline":
+                            yield dict(handler=handler, kind="hstrp", payload="rrs", radio=r, opcode=op, own="Online" if op == "RadioGoingOffline" else "absent", others="absent", prelude=pl)
                 if handler == "rrs" and (r == "A" or tier != "quick"):
                     # the radio's last event before this datagram: none / registration / going offline
                     for own in ("Online", "Offline"):
